@@ -198,10 +198,8 @@ def classify_name(k, snake, status, probs) -> str:
     return ""
 
 
-def check_names(k: int, snake: bool) -> bool:
-    """
-    post: _
-    """
+def _names(k, snake) -> bool:
+    # no contract on purpose (see harness/C06_defaults.py)
     i = pick(k, len(NAME_CASES))
     sn = True if snake else False
     with NoTracing():
@@ -216,9 +214,9 @@ def check_names(k: int, snake: bool) -> bool:
 
 
 def names_parts_source(nparts: int = 16) -> str:
-    out = ["from harness.C04_generates import NAME_CASES, check_names", "from harness._h import pick", ""]
+    out = ["from harness.C04_generates import NAME_CASES, _names", "from harness._h import pick", ""]
     n = len(NAME_CASES)
     for p in range(nparts):
         lo, hi = p * n // nparts, (p + 1) * n // nparts
-        out.append(f"def check_names_p{p}(j: int, snake: bool) -> bool:\n    \"\"\"\n    post: _\n    \"\"\"\n    return check_names({lo} + pick(j, {hi - lo}), snake)\n")
+        out.append(f"def check_names_p{p}(j: int, snake: bool) -> bool:\n    \"\"\"\n    post: _\n    \"\"\"\n    return _names({lo} + pick(j, {hi - lo}), snake)\n")
     return "\n".join(out)
